@@ -4,6 +4,20 @@ atoms-vs-parameters split per section.  Parsed from the CURRENT sources with `as
   topology.match_dihedral_interaction_types.patterns   -> Tables.Top.patterns  : List (List (Option Nat))
   topology.Topology.gen_pairs.comb_funcs               -> Tables.Top.combFuncs : List (Nat x String)
   top_parser.TOPDirector.atom_idxs                     -> Tables.Top.atomIdxs  : List (String x List AtomIdx)
+
+C08 anchors (literals of top_parser.py the model `Model/TopParse.lean` and `Properties/C08.lean` depend on):
+
+  TOPDirector._defaults: locals `defaults`, `numbered_terms`   -> defaultNames, defaultNumbered : List String
+  TOPDirector._defaults: `...defaults["gen-pairs"] = "no"`      -> genPairsDefault : String x String
+  TOPDirector._atomtypes: names given to zip_longest, `floats`  -> atomTypeFields, atomTypeFloats : List String
+  TOPDirector.__init__: self.pragma_actions / header_actions    -> pragmaActions : List (String x String),
+                                                                    headerActions : List (List String x String)
+  TOPDirector.parse_top_pragma: local dict `inverse`            -> inverseCond : List (String x String)
+  TOPDirector.COMMENT_CHAR                                      -> commentChar : Char
+
+Class-level / instance-level tables fall back to the live object when they are no longer literals; the
+function-local `inverse` has a tolerant anchor (the unique str->str dict literal assigned anywhere in
+top_parser.py, e.g. after it has been moved to a class constant).
 """
 import ast
 from gen_tables import src, find_func, local_assign, lstr, TranslatorError, live_module
@@ -161,6 +175,182 @@ def _atom_idxs_live():
     return out
 
 
+# ------------------------------------------------------------------------------------------------ C08 anchors
+
+def _str_list(node, what):
+    if not isinstance(node, (ast.List, ast.Tuple)) or not node.elts:
+        raise TranslatorError("%s is not a non-empty list literal" % what)
+    out = []
+    for elt in node.elts:
+        if not (isinstance(elt, ast.Constant) and isinstance(elt.value, str)):
+            raise TranslatorError("%s: entry is not a string literal: %s" % (what, ast.dump(elt)[:120]))
+        out.append(elt.value)
+    if len(set(out)) != len(out):
+        raise TranslatorError("%s has a repeated entry: %r" % (what, out))
+    return out
+
+
+def _gen_pairs_default(func):
+    """the unique `<...>.defaults[<str literal>] = <str literal>` of `_defaults` (the default inserted for a
+    missing gen-pairs)"""
+    found = []
+    for node in ast.walk(func):
+        if isinstance(node, ast.Assign) and len(node.targets) == 1:
+            target = node.targets[0]
+            if isinstance(target, ast.Subscript) and isinstance(target.value, ast.Attribute) \
+                    and target.value.attr == "defaults" and isinstance(target.slice, ast.Constant) \
+                    and isinstance(target.slice.value, str) and isinstance(node.value, ast.Constant) \
+                    and isinstance(node.value.value, str):
+                found.append((target.slice.value, node.value.value))
+    if len(found) != 1:
+        raise TranslatorError("anchor not found: `self.topology.defaults[<name>] = <string>` in _defaults "
+                              "(%d candidates)" % len(found))
+    return found[0]
+
+
+def _atomtype_fields(func):
+    """the list literal given as first argument to the (unique) zip_longest call of `_atomtypes`"""
+    found = []
+    for node in ast.walk(func):
+        if isinstance(node, ast.Call) and ((isinstance(node.func, ast.Name) and node.func.id == "zip_longest")
+                                           or (isinstance(node.func, ast.Attribute) and node.func.attr == "zip_longest")):
+            found.append(node)
+    if len(found) != 1:
+        raise TranslatorError("anchor not found: the zip_longest call of _atomtypes (%d candidates)" % len(found))
+    call = found[0]
+    if len(call.args) != 2:
+        raise TranslatorError("zip_longest of _atomtypes does not have two positional arguments")
+    fill = [kw for kw in call.keywords if kw.arg == "fillvalue"]
+    if fill and not (isinstance(fill[0].value, ast.Constant) and fill[0].value.value is None):
+        raise TranslatorError("zip_longest of _atomtypes: fillvalue is not None")
+    return _str_list(call.args[0], "field names of _atomtypes")
+
+
+def _self_assign(func, attr):
+    for node in ast.walk(func):
+        if isinstance(node, ast.Assign):
+            for target in node.targets:
+                if isinstance(target, ast.Attribute) and target.attr == attr and isinstance(target.value, ast.Name) \
+                        and target.value.id == "self":
+                    return node.value
+    raise TranslatorError("anchor not found: self.%s = ... in %s" % (attr, func.name))
+
+
+def _method_name(node, what):
+    if isinstance(node, ast.Attribute) and isinstance(node.value, ast.Name) and node.value.id == "self":
+        return node.attr
+    raise TranslatorError("%s: value is not `self.<method>`: %s" % (what, ast.dump(node)[:120]))
+
+
+def _live_director():
+    try:
+        top_parser = live_module("top_parser")
+        topology = live_module("topology")
+        import vermouth.forcefield
+        return top_parser.TOPDirector(topology.Topology(vermouth.forcefield.ForceField("translator")))
+    except Exception as err:  # pylint: disable=broad-except
+        raise TranslatorError("cannot instantiate the live TOPDirector: %s" % err)
+
+
+def _pragma_actions(init):
+    try:
+        node = _self_assign(init, "pragma_actions")
+        if not isinstance(node, ast.Dict):
+            raise TranslatorError("self.pragma_actions is not a dict literal")
+        out = []
+        for key, val in zip(node.keys, node.values):
+            if not (isinstance(key, ast.Constant) and isinstance(key.value, str)):
+                raise TranslatorError("pragma_actions key is not a string literal")
+            out.append((key.value, _method_name(val, "pragma_actions[%s]" % key.value)))
+        return out
+    except TranslatorError:
+        live = _live_director().pragma_actions
+        if not all(isinstance(k, str) and hasattr(v, "__name__") for k, v in live.items()):
+            raise TranslatorError("pragma_actions is neither a dict literal nor a live str -> method dict")
+        return sorted((k, v.__name__) for k, v in live.items())
+
+
+def _header_actions(init):
+    try:
+        node = _self_assign(init, "header_actions")
+        if not isinstance(node, ast.Dict):
+            raise TranslatorError("self.header_actions is not a dict literal")
+        out = []
+        for key, val in zip(node.keys, node.values):
+            out.append((_str_list(key, "header_actions key"), _method_name(val, "header_actions value")))
+        return out
+    except TranslatorError:
+        live = _live_director().header_actions
+        if not all(isinstance(k, tuple) and all(isinstance(x, str) for x in k) and hasattr(v, "__name__")
+                   for k, v in live.items()):
+            raise TranslatorError("header_actions is neither a dict literal nor a live tuple -> method dict")
+        return sorted((list(k), v.__name__) for k, v in live.items())
+
+
+def _str_dict(node):
+    if not isinstance(node, ast.Dict) or not node.keys:
+        raise TranslatorError("not a non-empty dict literal")
+    out = []
+    for key, val in zip(node.keys, node.values):
+        if not (isinstance(key, ast.Constant) and isinstance(key.value, str)
+                and isinstance(val, ast.Constant) and isinstance(val.value, str)):
+            raise TranslatorError("dict entry is not str -> str")
+        out.append((key.value, val.value))
+    if len(set(k for k, _ in out)) != len(out):
+        raise TranslatorError("dict literal has a repeated key")
+    return out
+
+
+def _inverse_cond(parser):
+    """the local `inverse` of parse_top_pragma; if it has been moved (class constant, other name): the unique
+    assignment anywhere in top_parser.py whose value is a non-empty str -> str dict literal"""
+    try:
+        return _str_dict(local_assign(find_func(parser, "parse_top_pragma", cls="TOPDirector"), "inverse"))
+    except TranslatorError:
+        found = []
+        for node in ast.walk(parser):
+            if isinstance(node, ast.Assign):
+                try:
+                    found.append(_str_dict(node.value))
+                except TranslatorError:
+                    continue
+        if len(found) != 1:
+            raise TranslatorError("anchor not found: the ifdef/ifndef inversion table of top_parser.py "
+                                  "(%d candidate str -> str dict literals)" % len(found))
+        return found[0]
+
+
+def _comment_char(parser):
+    try:
+        node = _class_assign(parser, "TOPDirector", "COMMENT_CHAR")
+        if not (isinstance(node, ast.Constant) and isinstance(node.value, str)):
+            raise TranslatorError("COMMENT_CHAR is not a string literal")
+        val = node.value
+    except TranslatorError:
+        try:
+            val = live_module("top_parser").TOPDirector.COMMENT_CHAR
+        except Exception as err:  # pylint: disable=broad-except
+            raise TranslatorError("TOPDirector.COMMENT_CHAR is neither a literal nor a live attribute: %s" % err)
+    if not (isinstance(val, str) and len(val) == 1 and 32 < ord(val) < 127 and val not in "\\'\""):
+        raise TranslatorError("TOPDirector.COMMENT_CHAR is not a single printable ASCII character: %r" % (val,))
+    return val
+
+
+def _c08_anchors(parser, tab):
+    dflt = find_func(parser, "_defaults", cls="TOPDirector")
+    tab["defaultNames"] = _str_list(local_assign(dflt, "defaults"), "defaults of _defaults")
+    tab["defaultNumbered"] = _str_list(local_assign(dflt, "numbered_terms"), "numbered_terms of _defaults")
+    tab["genPairsDefault"] = _gen_pairs_default(dflt)
+    atyp = find_func(parser, "_atomtypes", cls="TOPDirector")
+    tab["atomTypeFields"] = _atomtype_fields(atyp)
+    tab["atomTypeFloats"] = _str_list(local_assign(atyp, "floats"), "floats of _atomtypes")
+    init = find_func(parser, "__init__", cls="TOPDirector")
+    tab["pragmaActions"] = _pragma_actions(init)
+    tab["headerActions"] = _header_actions(init)
+    tab["inverseCond"] = _inverse_cond(parser)
+    tab["commentChar"] = _comment_char(parser)
+
+
 def extract():
     tab = {}
     topo = src("topology.py")
@@ -172,7 +362,12 @@ def extract():
     except TranslatorError:
         tab["atomIdxs"] = _atom_idxs_live()
     tab["sections"] = _sections(parser, "TOPDirector")
+    _c08_anchors(parser, tab)
     return tab
+
+
+def _slist(items):
+    return "[" + ", ".join(lstr(i) for i in items) + "]"
 
 
 def _opt(val):
@@ -215,6 +410,34 @@ def emit(tab):
     lines.append("def sections : List (List String × String) :=")
     lines.append("  [" + ",\n   ".join("([%s], %s)" % (", ".join(lstr(n) for n in names), lstr(func))
                                         for names, func in tab["sections"]) + "]")
+    lines.append("")
+    lines.append("/-- locals `defaults` / `numbered_terms` of TOPDirector._defaults, in source order -/")
+    lines.append("def defaultNames : List String := %s" % _slist(tab["defaultNames"]))
+    lines.append("def defaultNumbered : List String := %s" % _slist(tab["defaultNumbered"]))
+    lines.append("")
+    lines.append("/-- the `self.topology.defaults[name] = value` of TOPDirector._defaults (inserted when the name is "
+                 "missing) -/")
+    lines.append("def genPairsDefault : String × String := (%s, %s)" % (lstr(tab["genPairsDefault"][0]),
+                                                                       lstr(tab["genPairsDefault"][1])))
+    lines.append("")
+    lines.append("/-- TOPDirector._atomtypes: the field names zipped with the REVERSED tokens, and the local `floats` -/")
+    lines.append("def atomTypeFields : List String := %s" % _slist(tab["atomTypeFields"]))
+    lines.append("def atomTypeFloats : List String := %s" % _slist(tab["atomTypeFloats"]))
+    lines.append("")
+    lines.append("/-- `self.pragma_actions` of TOPDirector.__init__: first token -> method name -/")
+    lines.append("def pragmaActions : List (String × String) :=")
+    lines.append("  [" + ", ".join("(%s, %s)" % (lstr(k), lstr(v)) for k, v in tab["pragmaActions"]) + "]")
+    lines.append("")
+    lines.append("/-- `self.header_actions` of TOPDirector.__init__: section path -> method name -/")
+    lines.append("def headerActions : List (List String × String) :=")
+    lines.append("  [" + ", ".join("(%s, %s)" % (_slist(k), lstr(v)) for k, v in tab["headerActions"]) + "]")
+    lines.append("")
+    lines.append("/-- the dict `inverse` of TOPDirector.parse_top_pragma (`#else`) -/")
+    lines.append("def inverseCond : List (String × String) :=")
+    lines.append("  [" + ", ".join("(%s, %s)" % (lstr(k), lstr(v)) for k, v in tab["inverseCond"]) + "]")
+    lines.append("")
+    lines.append("/-- `TOPDirector.COMMENT_CHAR` -/")
+    lines.append("def commentChar : Char := '%s'" % tab["commentChar"])
     lines.append("")
     lines.append("end PolyplyVerif.Tables.Top")
     return "\n".join(lines) + "\n"
@@ -262,4 +485,69 @@ def validate_live(tab):
             got = "raised %s" % type(err).__name__
         if got != key:
             problems.append("live match_dihedral_interaction_types does not find the translated pattern %r" % (row,))
+    problems += _validate_c08(tab, top_parser, topology)
+    return problems
+
+
+def _validate_c08(tab, top_parser, topology):
+    """the C08 anchors against the live class: COMMENT_CHAR and the two action dicts directly, the function
+    locals behaviourally (one probe line per handler on a fresh director)"""
+    problems = []
+    import vermouth.forcefield
+    cls = top_parser.TOPDirector
+    if cls.COMMENT_CHAR != tab["commentChar"]:
+        problems.append("TOPDirector.COMMENT_CHAR is %r, translated %r" % (cls.COMMENT_CHAR, tab["commentChar"]))
+
+    def fresh():
+        topo = topology.Topology(vermouth.forcefield.ForceField("translator"))
+        return topo, cls(topo)
+    try:
+        topo, director = fresh()
+        live = dict((k, getattr(v, "__name__", "?")) for k, v in director.pragma_actions.items())
+        if live != dict(tab["pragmaActions"]):
+            problems.append("pragma_actions of a live TOPDirector %r differs from the translated %r"
+                            % (live, tab["pragmaActions"]))
+        live = dict((tuple(k), getattr(v, "__name__", "?")) for k, v in director.header_actions.items())
+        if live != dict((tuple(k), v) for k, v in tab["headerActions"]):
+            problems.append("header_actions of a live TOPDirector %r differs from the translated %r"
+                            % (live, tab["headerActions"]))
+        # _defaults: all names given -> keys in the translated order, the numbered ones (and only they) are floats
+        names = tab["defaultNames"]
+        director._defaults(" ".join("1" for _ in names))                      # pylint: disable=protected-access
+        if list(topo.defaults) != names:
+            problems.append("live _defaults stores the keys %r, translated %r" % (list(topo.defaults), names))
+        numbered = [k for k, v in topo.defaults.items() if isinstance(v, float)]
+        if sorted(numbered) != sorted(tab["defaultNumbered"]):
+            problems.append("live _defaults converts %r to float, translated %r" % (numbered, tab["defaultNumbered"]))
+        key, val = tab["genPairsDefault"]
+        if key in names and names.index(key) > 0:
+            topo, director = fresh()
+            director._defaults(" ".join("1" for _ in names[:names.index(key)]))  # pylint: disable=protected-access
+            if topo.defaults.get(key) != val:
+                problems.append("live _defaults inserts %s=%r, translated %r" % (key, topo.defaults.get(key), val))
+        # _atomtypes: name + one numeric token per field -> keys in the translated order, floats as translated
+        fields = tab["atomTypeFields"]
+        topo, director = fresh()
+        director._atomtypes("NAME " + " ".join(str(i + 1) for i in range(len(fields))))   # pylint: disable=protected-access
+        row = topo.atom_types.get("NAME", {})
+        if list(row) != fields:
+            problems.append("live _atomtypes stores the fields %r, translated %r" % (list(row), fields))
+        else:
+            want = [str(len(fields) - i) for i in range(len(fields))]        # the tokens are reversed
+            got = [("%d" % v) if isinstance(v, float) else v for v in row.values()]
+            if got != want:
+                problems.append("live _atomtypes assigns %r to %r, expected the reversed tokens %r" % (got, fields, want))
+        floats = [k for k, v in row.items() if isinstance(v, float)]
+        if sorted(floats) != sorted(tab["atomTypeFloats"]):
+            problems.append("live _atomtypes converts %r to float, translated %r" % (floats, tab["atomTypeFloats"]))
+        # #else: the translated inversion table
+        for cond, inv in tab["inverseCond"]:
+            topo, director = fresh()
+            director.current_meta = {"tag": "T", "condition": cond}
+            director.parse_top_pragma("#else")
+            if (director.current_meta or {}).get("condition") != inv:
+                problems.append("live parse_top_pragma('#else') turns %r into %r, translated %r"
+                                % (cond, (director.current_meta or {}).get("condition"), inv))
+    except Exception as err:  # pylint: disable=broad-except
+        problems.append("probing the live TOPDirector raised %s: %s" % (type(err).__name__, err))
     return problems
